@@ -48,4 +48,26 @@ run C18 chempy/electrolytes.py '    for b, z in zip(molalities, charges):
 run C01 chempy/util/parsing.py '"""Parses a string' '"""Parse a string' "docstring edit in parsing.py"
 run C11 chempy/chemistry.py '"""Per substance net stoichiometry tuple (active & inactive)"""' '"""Net stoichiometry per substance key."""' "docstring edit in chemistry.py"
 run C05 chempy/chemistry.py '"""Per substance net stoichiometry tuple (active & inactive)"""' '"""Net stoichiometry per substance key."""' "docstring edit seen from another property"
+run C12 chempy/util/parsing.py '            if items[0] not in result:
+                result[items[0]] = 0
+            result[items[0]] += 1' '            result[items[0]] = result.get(items[0], 0) + 1' "_parse_multiplicity: dict.get instead of membership test"
+run C12 chempy/util/parsing.py '            if items[1] not in result:
+                result[items[1]] = 0
+            result[items[1]] += (
+                float(items[0]) if "." in items[0] or "e" in items[0] else int(items[0])
+            )' '            count, key = items
+            is_decimal = "." in count or "e" in count
+            amount = float(count) if is_decimal else int(count)
+            result[key] = result.get(key, 0) + amount' "_parse_multiplicity: unpacked, named intermediate values"
+run C17 chempy/kinetics/integrated.py 'return prod + minor * (1 - be.exp(-major * kf * t))' 'return prod + minor - minor / be.exp(major * kf * t)' "pseudo_irrev: algebraically equivalent form"
+run C17 chempy/kinetics/integrated.py 'return 1 / (1 / initial_C + 2 * kf * (t - t0))' 'return initial_C / (1 + 2 * kf * initial_C * (t - t0))' "dimerization_irrev: algebraically equivalent form"
+run C18 chempy/electrolytes.py '    return -A * z ** 2 * (sqrt_I_I0 / (1 + sqrt_I_I0) + C * I_I0)' '    zz = z * z
+    return -(A * zz * sqrt_I_I0 / (sqrt_I_I0 + 1) + A * zz * C * I_I0)' "davies_log_gamma: distributed product"
+run C19 chempy/properties/water_density_tanaka_2001.py '    return a[4] * (1 - ((t + a[0]) ** 2 * (t + a[1])) / (a[2] * (t + a[3])))' '    num = (t + a[0]) * (t + a[0]) * (t + a[1])
+    return a[4] - a[4] * num / a[2] / (t + a[3])' "water_density: algebraically equivalent form"
+run C16 chempy/kinetics/arrhenius.py '    return A * be.exp(-Ea / RT)' '    return A / be.exp(Ea / RT)' "arrhenius_equation: reciprocal exponential"
+run C15 chempy/reactionsystem.py '                if comp_nr in skip_keys:  # charge may be created (if compensated)
+                    continue
+                composition_conc[comp_nr] += coeff * conc' '                if comp_nr not in skip_keys:  # charge may be created (if compensated)
+                    composition_conc[comp_nr] = composition_conc[comp_nr] + conc * coeff' "upper_conc_bounds: inverted guard, commuted product"
 exit $fail
